@@ -328,6 +328,7 @@ class ClientCtx:
             rec['exc_obj'] = e
             return e
         rec['ret_step'] = s.steps
+        s.last_progress = s.steps
         rec['outcome'] = 'value'
         rec['value'] = v
         return v
